@@ -412,7 +412,7 @@ func decimalString(fr *frame, a *Term) value {
 	sum := mkInt(0)
 	pow := big.NewInt(1)
 	for j := nd - 1; j >= 0; j-- {
-		ch := px.freshVar("", bvSort(8))
+		ch := px.freshDet(bvSort(8))
 		px.assertPC(mkAnd(bvCmp("bvuge", ch, mkBV(8, '0')), bvCmp("bvule", ch, mkBV(8, '9'))))
 		// digit value as Int via a 10-way table
 		dv := mkInt(9)
@@ -469,7 +469,7 @@ func decimalBV(fr *frame, v symv) value {
 	sum := mkBV(dw, 0)
 	pow := uint64(1)
 	for j := nd - 1; j >= 0; j-- {
-		ch := px.freshVar("", bvSort(8))
+		ch := px.freshDet(bvSort(8))
 		px.assertPC(mkAnd(bvCmp("bvuge", ch, mkBV(8, '0')), bvCmp("bvule", ch, mkBV(8, '9'))))
 		dv := bvBin("bvsub", bvZext(dw, ch), mkBV(dw, '0'))
 		sum = bvBin("bvadd", sum, bvBin("bvmul", dv, mkBV(dw, pow)))
